@@ -1772,6 +1772,15 @@ fn gen_c07(o: &mut Out, r: &mut Rng, d: &GDict, tier: &str) {
                 ev.push(format!("d:{}", hex(&f[4..])));
                 o.line(&format!("sdec 1 {}", ev.join(",")));
             }
+            // the same announcement as the second frame of the stream, behind a well-formed header-only frame: later frames
+            // are guarded like the first (the judge looks at the second result: `second=1`)
+            {
+                let mut g = vec![1u8, 0, 0, 20, 0x80, 0, 1, 16, 0, 0, 0, 4, 0, 0, 0, 9, 0, 0, 0, 9];
+                g.extend(&f);
+                o.case(&format!("announce L={} b0={} second=1", l, b0));
+                o.line(&format!("sdec 2 d:{}", hex(&g)));
+                o.line(&format!("sdec 2 d:{},p,d:{},d:{}", hex(&g[..21]), hex(&g[21..23]), hex(&g[23..])));
+            }
         }
     }
 }
@@ -2516,9 +2525,10 @@ fn gen_c14(o: &mut Out, r: &mut Rng, tier: &str) {
     // of it so that redefinitions of the same key stay frequent
     let all_codes = [0u32, 1, 2, 3, 65537, 65539, 4294967295];
     let all_vendors = [None, Some(0u32), Some(1), Some(2), Some(3), Some(5), Some(65541), Some(10415), Some(4294967295)];
-    let names = ["A", "B", "C", "Twin", "Sess-Id", "名前 x"];
-    let app_names = ["App A", "App B", "Base"];
-    let cmd_names = ["Cmd-A", "Cmd-B", "CC"];
+    // (names that differ only in case or in a trailing blank are different names)
+    let names = ["A", "a", "B", "C", "Twin", "twin", "Sess-Id", "Sess-Id ", "名前 x"];
+    let app_names = ["App A", "app a", "App B", "Base"];
+    let cmd_names = ["Cmd-A", "cmd-a", "Cmd-B", "CC", "CC "];
     // a document (its lines without the closing `doc_end`); kept by the history so that the very same document can be
     // supplied again later - the latest supply wins, also when its text was seen before
     let rand_doc = |r: &mut Rng, codes: &[u32], vendors: &[Option<u32>]| -> Vec<String> {
